@@ -14,11 +14,20 @@
 #define CANARY 0xC0FFEE1234ABCDEFULL
 #define DEADCAN 0xDEADDEADDEADDEADULL
 
-enum { K_NODE, K_NODEA, K_REF, K_BOX, K_ARR, K_LST, K_TAB, K_TRE, K_TUP, K_TABR, K_ARRB };
+enum { K_NODE, K_NODEA, K_REF, K_BOX, K_ARR, K_LST, K_TAB, K_TRE, K_TUP, K_TABR, K_ARRB,
+       K_NODEB, K_NODEO, K_NODEZ, K_TRER, K_THR, K_LSTB, K_TABB, K_TREB };
 enum { C_MANAGED, C_ROOT, C_RAW };
-static const char* kind_names[] = { "node", "nodea", "ref", "box", "arr", "lst", "tab", "tre", "tup", "tabr", "arrb", NULL };
+static const char* kind_names[] = { "node", "nodea", "ref", "box", "arr", "lst", "tab", "tre", "tup", "tabr", "arrb",
+                                    "nodeb", "nodeo", "nodez", "trer", "thr", "lstb", "tabb", "treb", NULL };
+/* instrumented objects (destructor observed): plain 48-byte struct, the same from the arena, a 1 MiB struct whose last
+ * two words are pointer fields, a 52-byte struct (size not a multiple of the word size), a type of size 0 */
+static bool is_node(int kind) { return kind is K_NODE or kind is K_NODEA or kind is K_NODEB or kind is K_NODEO or kind is K_NODEZ; }
+static bool is_ptrobj(int kind) { return kind is K_REF or kind is K_BOX; }
 
 struct Node { int64_t id; uint64_t canary; var out[4]; };
+#define BIGPAD (1 << 20)
+struct NodeB { int64_t id; uint64_t canary; var out[2]; char pad[BIGPAD]; var tail[2]; };
+#define NODEO_SIZE 52    /* id, canary, out[4], 4 more bytes */
 
 struct Led {
   var ptr; int kind, cls; int dtor; int released; bool used; bool explicit_del; bool unregistered; long seq;
@@ -28,7 +37,35 @@ static struct Led led[MAXOBJ];
 static int led_hi = 0;
 static int64_t finlog[MAXOBJ * 2]; static int nfin = 0, fin_reported = 0;
 static char errmsg[512] = "";
+/* pointer -> most recently allocated ledger id at that address (generation-stamped open addressing, no per-case clearing) */
+#define PIDX (1 << 20)
+static int pidx_id[PIDX]; static unsigned pidx_gen[PIDX]; static unsigned case_gen = 1;
+static size_t pidx_hash(var p) { return (size_t)((((uintptr_t)p >> 3) * 0x9E3779B97F4A7C15ULL) >> 44) % PIDX; }
 static void err(const char* fmt, int64_t a) { if (not errmsg[0]) { snprintf(errmsg, sizeof errmsg, fmt, (long long)a); } }
+static int find_by_ptr(var p) {
+  /* addresses are reused after a free: the most recently allocated object at this address is the one meant */
+  size_t i = pidx_hash(p);
+  for (size_t n = 0; n < PIDX; n++, i = (i + 1) % PIDX) {
+    if (pidx_gen[i] isnt case_gen) { return -1; }
+    if (led[pidx_id[i]].ptr is p) { return pidx_id[i]; }
+  }
+  return -1;
+}
+static void index_ptr(var p, int h) {
+  size_t i = pidx_hash(p);
+  for (size_t n = 0; n < PIDX; n++, i = (i + 1) % PIDX) {
+    if (pidx_gen[i] isnt case_gen) { pidx_gen[i] = case_gen; pidx_id[i] = h; return; }
+    if (pidx_id[i] is h or led[pidx_id[i]].ptr is p) { pidx_id[i] = h; return; }
+  }
+  harness_bug("pointer index full");
+}
+static void ledger_add(int h, var r, int kind, int cls) {
+  led[h].used = true; led[h].ptr = r; led[h].kind = kind; led[h].cls = cls; led[h].dtor = 0; led[h].released = 0;
+  led[h].explicit_del = false; led[h].unregistered = false; led[h].seq = ++alloc_seq;
+  if (h > led_hi) { led_hi = h; }
+  index_ptr(r, h);
+}
+
 
 /* ---- block accounting (worker thread only) -------------------------------------------- */
 extern void* __real_malloc(size_t); extern void* __real_calloc(size_t, size_t);
@@ -85,6 +122,25 @@ static void Node_Del(var self) {
   n->canary = DEADCAN;
 }
 static var Node = Cello(Node, Instance(New, Node_New, Node_Del));
+/* same constructor / destructor (they only touch id and canary), different sizes */
+static var NodeB = CelloObject(NodeB, sizeof(struct NodeB), Instance(New, Node_New, Node_Del));
+static var NodeO = CelloObject(NodeO, NODEO_SIZE, Instance(New, Node_New, Node_Del));
+/* size 0: the object pointer is the end of its block; identified by address */
+static void NodeZ_New(var self, var args) { }
+static void NodeZ_Del(var self) {
+  int id = find_by_ptr(self);
+  if (id < 0 or led[id].kind isnt K_NODEZ) { err("destructor on unknown zero-size object %lld", (int64_t)id); return; }
+  led[id].dtor++;
+  if (led[id].dtor > 1) { err("object finalised twice id=%lld", id); }
+  if (nfin < MAXOBJ * 2) { finlog[nfin++] = id; }
+}
+static var NodeZ = CelloObject(NodeZ, 0, Instance(New, NodeZ_New, NodeZ_Del));
+/* pointer field k of an instrumented object */
+static var* field_of(int kind, var p, int64_t k) {
+  if (kind is K_NODEB) { struct NodeB* b = p; return (k % 4) < 2 ? &b->out[k % 4] : &b->tail[k % 4 - 2]; }
+  if (kind is K_NODEZ) { harness_bug("field of a zero-size object"); }
+  return &((struct Node*)p)->out[k % 4];
+}
 
 /* ---- NodeA: same object, allocated from an arena at addresses chosen by the case ------ */
 #define CELL 128
@@ -110,14 +166,12 @@ static var NodeA_Alloc(void) {
 static void NodeA_Dealloc(var self) {
   int64_t c = ((char*)self - sizeof(struct Header) - arena) / CELL;
   struct Node* n = self;
-  /* id was overwritten? the ledger entry is found by address */
-  for (int i = 0; i <= led_hi; i++) {
-    if (led[i].used and led[i].ptr is self and led[i].kind is K_NODEA) {
-      led[i].released++;
-      if (led[i].released > 1) { err("arena object released twice id=%lld", i); }
-      if (led[i].dtor isnt 1) { err("arena object released without being finalised id=%lld", i); }
-      break;
-    }
+  /* id was overwritten? the ledger entry is found by address (arena cells are never reused within a case) */
+  int i = find_by_ptr(self);
+  if (i >= 0 and led[i].used and led[i].kind is K_NODEA) {
+    led[i].released++;
+    if (led[i].released > 1) { err("arena object released twice id=%lld", i); }
+    if (led[i].dtor isnt 1) { err("arena object released without being finalised id=%lld", i); }
   }
   (void)n;
   if (c < 0 or c >= NCELL or not cellused[c]) { err("release of a cell that is not in use %lld", c); return; }
@@ -138,15 +192,6 @@ static int kind_of(const char* s) { for (int i = 0; kind_names[i]; i++) { if (st
 static int hnd(const char* s) { int h = atoi(s); if (h < 0 or h >= MAXOBJ) { harness_bug("handle"); } return h; }
 static var P(int h) { if (not led[h].used) { harness_bug("unused handle"); } return led[h].ptr; }
 
-static int find_by_ptr(var p) {
-  /* addresses are reused after a free: the most recently allocated object at this address is the one meant */
-  int best = -1;
-  for (int i = 0; i <= led_hi; i++) {
-    if (led[i].used and led[i].ptr is p and (best < 0 or led[i].seq > led[best].seq)) { best = i; }
-  }
-  return best;
-}
-
 /* retype <mode>: the next container made by mk() is first constructed with scalar element types and some elements, and
  * only then becomes a container of the wanted types: 1 = assign from an empty container of those types, 2 = assign from
  * an empty Tuple (Array / List: element type becomes Ref), 3 = (managed only) it is the copy of an empty container */
@@ -158,8 +203,16 @@ static var mk(int h, int kind, int cls, var a0, var a1) {
   /* all temporaries at function scope: $() objects die with their enclosing block */
   /* new(Ref|Box, x) dereferences x when x is itself a pointer object; wrap it so the new object points at x */
   var t_id = tuple($I(h)); var t_a0 = tuple($R(a0)); var t_ref = tuple(Ref); var t_intref = tuple(Int, Ref);
-  var t_refref = tuple(Ref, Ref); var t_none = tuple(); var t_box = tuple(Box);
+  var t_refref = tuple(Ref, Ref); var t_none = tuple(); var t_box = tuple(Box); var t_intbox = tuple(Int, Box);
   switch (kind) {
+    case K_NODEB: type = NodeB; args = t_id; break;
+    case K_NODEO: type = NodeO; args = t_id; break;
+    case K_NODEZ: type = NodeZ; args = t_id; break;
+    case K_TRER: type = Tree; args = t_refref; break;
+    case K_THR: type = Thread; args = t_none; break;
+    case K_LSTB: type = List; args = t_box; break;
+    case K_TABB: type = Table; args = t_intbox; break;
+    case K_TREB: type = Tree; args = t_intbox; break;
     case K_NODE: type = Node; args = t_id; break;
     case K_NODEA: type = NodeA; args = t_id; break;
     case K_REF: type = Ref; args = t_a0; break;
@@ -173,7 +226,8 @@ static var mk(int h, int kind, int cls, var a0, var a1) {
     case K_ARRB: type = Array; args = t_box; break;
   }
   var r = NULL;
-  bool seq = kind is K_ARR or kind is K_LST or kind is K_ARRB, map = kind is K_TAB or kind is K_TABR or kind is K_TRE;
+  bool seq = kind is K_ARR or kind is K_LST or kind is K_ARRB or kind is K_LSTB;
+  bool map = kind is K_TAB or kind is K_TABR or kind is K_TRE or kind is K_TRER or kind is K_TABB or kind is K_TREB;
   int mode = (seq or map) ? retype_mode : 0;
   if (seq or map) { retype_mode = 0; }
   if (mode is 3 and cls is C_MANAGED) {
@@ -188,14 +242,14 @@ static var mk(int h, int kind, int cls, var a0, var a1) {
   } else {
     r = cls is C_MANAGED ? new_with(type, args) : cls is C_ROOT ? new_root_with(type, args) : new_raw_with(type, args);
   }
-  led[h].used = true; led[h].ptr = r; led[h].kind = kind; led[h].cls = cls; led[h].dtor = 0; led[h].released = 0;
-  led[h].explicit_del = false; led[h].seq = ++alloc_seq;
-  if (h > led_hi) { led_hi = h; }
+  ledger_add(h, r, kind, cls);
   return r;
 }
 
+static unsigned seen_stamp[MAXOBJ]; static unsigned stamp = 0;
 static void registry_check(void) {
   var gc = current(GC);
+  stamp++;
   size_t ns, ni, mi, fn; uintptr_t mn, mx; bool run;
   Cello_Verif_GC_Stat(gc, &ns, &ni, &mi, &mn, &mx, &fn, &run);
   const char* bad = NULL; size_t occ = 0, maxd = 0, disp = 0, wrap = 0;
@@ -220,12 +274,12 @@ static void registry_check(void) {
     int id = find_by_ptr(p);
     if (id < 0) { bad = "entry-for-unknown-object"; break; }
     if (led[id].cls is C_RAW) { bad = "raw-object-registered"; break; }
-    if (led[id].dtor > 0 and led[id].kind <= K_NODEA) { bad = "finalised-object-still-registered"; break; }
+    if (led[id].dtor > 0 and is_node(led[id].kind)) { bad = "finalised-object-still-registered"; break; }
+    if (led[id].explicit_del) { bad = "deleted-object-still-registered"; break; }
+    if (led[id].unregistered) { continue; }     /* allocated while stopped: documented as "not added", the property's wording would admit it: not asserted */
     if (root isnt (led[id].cls is C_ROOT)) { bad = "root-flag-mismatch"; break; }
-    for (size_t j = 0; j < i and ns <= 800; j++) {
-      Cello_Verif_GC_Entry(gc, j, &pp, &hp, &r2, &m2);
-      if (hp isnt 0 and pp is p) { bad = "pointer-registered-twice"; break; }
-    }
+    if (seen_stamp[id] is stamp) { bad = "pointer-registered-twice"; break; }
+    seen_stamp[id] = stamp;
   }
   if (not bad and occ isnt ni) { bad = "occupied-ne-nitems"; }
   if (not bad and ns > 0 and occ >= ns) { bad = "no-empty-slot"; }
@@ -234,8 +288,9 @@ static void registry_check(void) {
   for (int i = 0; i <= led_hi and not bad; i++) {
     if (not led[i].used) { continue; }
     bool should = led[i].cls isnt C_RAW and not led[i].explicit_del and not led[i].unregistered
-      and not (led[i].kind <= K_NODEA and led[i].dtor > 0);
-    if (led[i].kind > K_NODEA and not led[i].explicit_del and led[i].cls isnt C_RAW) { continue; }  /* library types: finalisation not observable */
+      and not (is_node(led[i].kind) and led[i].dtor > 0);
+    if (not is_node(led[i].kind) and not led[i].explicit_del and led[i].cls isnt C_RAW) { continue; }  /* library types: finalisation not observable */
+    if (led[i].unregistered and not led[i].explicit_del and led[i].dtor is 0) { continue; }              /* allocated while stopped, still alive: membership not asserted */
     bool ismem = mem(gc, led[i].ptr);
     if (should) { live++; }
     if (should and not ismem) { bad = "live-object-not-member"; fprintf(out, "id=%d ", i); }
@@ -251,12 +306,19 @@ static void registry_check(void) {
 static void dump_targets(var c, int kind) {
   bool first = true;
   fputc('[', out);
-  if (kind is K_TAB or kind is K_TRE or kind is K_TABR) {
+  if (kind is K_THR) {
+    for (int k = 0; k < 16; k++) {
+      char key[32]; snprintf(key, sizeof key, "k%d", k);
+      if (not mem(c, $S(key))) { continue; }
+      if (not first) { fputc(',', out); } first = false;
+      fprintf(out, "%d:%d", k, find_by_ptr(get(c, $S(key))));
+    }
+  } else if (kind is K_TAB or kind is K_TRE or kind is K_TABR or kind is K_TRER or kind is K_TABB or kind is K_TREB) {
     size_t guard = 0;
     for (var k = iter_init(c); k isnt Terminal and guard++ < 100000; k = iter_next(c, k)) {
       var v = deref(get(c, k));
       if (not first) { fputc(',', out); } first = false;
-      if (kind is K_TABR) { fprintf(out, "%d:%d", find_by_ptr(deref(k)), find_by_ptr(v)); }
+      if (kind is K_TABR or kind is K_TRER) { fprintf(out, "%d:%d", find_by_ptr(deref(k)), find_by_ptr(v)); }
       else { fprintf(out, "%lld:%d", (long long)c_int(k), find_by_ptr(v)); }
     }
   } else {
@@ -281,7 +343,7 @@ static void do_op(char** w, int n) {
   else if (OP("new")) {                       /* new h kind cls [target | residue] */
     int h = hnd(w[1]); int kind = kind_of(w[2]); int cls = w[3][0] is 'm' ? C_MANAGED : (w[3][1] is 'o' ? C_ROOT : C_RAW);
     var a0 = NULL;
-    if (kind is K_REF or kind is K_BOX) { a0 = P(hnd(w[4])); }
+    if (is_ptrobj(kind)) { a0 = P(hnd(w[4])); }
     if (kind is K_NODEA) {
       bool last_slot = n > 4 and strcmp(w[4], "last") is 0;
       want_res = (n > 4 and not last_slot) ? atoll(w[4]) : -1;
@@ -308,28 +370,41 @@ static void do_op(char** w, int n) {
   }
   else if (OP("store")) {                /* store s k t */
     int s = hnd(w[1]); int64_t k = atoll(w[2]); var t = strcmp(w[3], "null") is 0 ? NULL : P(hnd(w[3]));
+    char key[32]; snprintf(key, sizeof key, "k%lld", (long long)k);
     switch (led[s].kind) {
-      case K_NODE: case K_NODEA: ((struct Node*)P(s))->out[k % 4] = t; break;
+      case K_NODE: case K_NODEA: case K_NODEB: case K_NODEO: *field_of(led[s].kind, P(s), k) = t; break;
       case K_REF: ref(P(s), t); break;
       case K_ARR: case K_LST: push(P(s), $R(t)); break;
-      case K_ARRB: push(P(s), t); break;
+      case K_ARRB: case K_LSTB: push(P(s), t); break;
       case K_BOX: ref(P(s), t); break;
       case K_TAB: case K_TRE: set(P(s), $I(k), $R(t)); break;
-      case K_TABR: set(P(s), $R(P(hnd(w[2]))), $R(t)); break;
+      case K_TABB: case K_TREB: set(P(s), $I(k), $B(t)); break;      /* the Box element takes over the pointer */
+      case K_TABR: case K_TRER: set(P(s), $R(P(hnd(w[2]))), $R(t)); break;
       case K_TUP: push(P(s), t); break;
+      case K_THR: set(P(s), $S(key), t); break;
       default: harness_bug("store kind");
     }
   }
   else if (OP("unstore")) {              /* unstore s k */
     int s = hnd(w[1]); int64_t k = atoll(w[2]);
+    char key[32]; snprintf(key, sizeof key, "k%lld", (long long)k);
     switch (led[s].kind) {
-      case K_NODE: case K_NODEA: ((struct Node*)P(s))->out[k % 4] = NULL; break;
+      case K_NODE: case K_NODEA: case K_NODEB: case K_NODEO: *field_of(led[s].kind, P(s), k) = NULL; break;
       case K_REF: ref(P(s), NULL); break;
-      case K_ARR: case K_LST: case K_TUP: case K_ARRB: pop(P(s)); break;
-      case K_TAB: case K_TRE: rem(P(s), $I(k)); break;
-      case K_TABR: rem(P(s), $R(P(hnd(w[2])))); break;
+      case K_ARR: case K_LST: case K_TUP: case K_ARRB: case K_LSTB: pop(P(s)); break;
+      case K_TAB: case K_TRE: case K_TABB: case K_TREB: rem(P(s), $I(k)); break;
+      case K_TABR: case K_TRER: rem(P(s), $R(P(hnd(w[2])))); break;
+      case K_THR: rem(P(s), $S(key)); break;
       default: harness_bug("unstore kind");
     }
+  }
+  else if (OP("setat")) {                /* setat s i t : overwrite element i of an Array<Ref> / List<Ref> */
+    var t = strcmp(w[3], "null") is 0 ? NULL : P(hnd(w[3]));
+    set(P(hnd(w[1])), $I(atoll(w[2])), $R(t));
+  }
+  else if (OP("pushat")) {               /* pushat s i t : insert before element i (Array<Ref>, List<Ref>, heap Tuple) */
+    int s = hnd(w[1]); var t = P(hnd(w[3]));
+    if (led[s].kind is K_TUP) { push_at(P(s), t, $I(atoll(w[2]))); } else { push_at(P(s), $R(t), $I(atoll(w[2]))); }
   }
   else if (OP("popat")) { pop_at(P(hnd(w[1])), $I(atoll(w[2]))); }
   else if (OP("clear")) { resize(P(hnd(w[1])), 0); }
@@ -341,18 +416,60 @@ static void do_op(char** w, int n) {
     int h = hnd(w[1]); var p = P(h);
     led[h].explicit_del = true;
     if (led[h].cls is C_MANAGED) { del(p); } else if (led[h].cls is C_ROOT) { del_root(p); } else { del_raw(p); }
-    if (led[h].kind <= K_NODEA) { fprintf(out, "dtor=%d", led[h].dtor); }
+    if (is_node(led[h].kind)) { fprintf(out, "dtor=%d", led[h].dtor); }
   }
+  else if (OP("dt")) { fprintf(out, "dtor=%d", led[hnd(w[1])].dtor); }       /* destructor count of an instrumented object */
   else if (OP("collect")) { Cello_Verif_GC_Collect(gc); }
-  else if (OP("copy")) {                 /* copy h src : copy of a Node gets its own identity in the ledger */
+  else if (OP("alloc")) {                /* alloc h kind cls : alloc / alloc_root / alloc_raw without a constructor call */
+    int h = hnd(w[1]); int kind = kind_of(w[2]); int cls = w[3][0] is 'm' ? C_MANAGED : (w[3][1] is 'o' ? C_ROOT : C_RAW);
+    if (not is_node(kind)) { harness_bug("alloc kind"); }
+    var type = kind is K_NODE ? Node : kind is K_NODEA ? NodeA : kind is K_NODEB ? NodeB : kind is K_NODEO ? NodeO : NodeZ;
+    want_res = -1;
+    bool running_now = true;
+    { size_t ns, ni, mi, fn; uintptr_t mn, mx; Cello_Verif_GC_Stat(gc, &ns, &ni, &mi, &mn, &mx, &fn, &running_now); }
+    var r = cls is C_MANAGED ? alloc(type) : cls is C_ROOT ? alloc_root(type) : alloc_raw(type);
+    if (kind isnt K_NODEZ) { struct Node* nd = r; nd->id = h; nd->canary = CANARY ^ (uint64_t)h; }
+    ledger_add(h, r, kind, cls);
+    led[h].unregistered = not running_now and cls isnt C_RAW;
+  }
+  else if (OP("fill")) {                 /* fill base max : short-lived Nodes until the registry holds exactly its threshold
+                                         ** number of items, so that the NEXT managed allocation collects inside alloc() */
+    int base = hnd(w[1]); int max = atoi(w[2]); int cnt = 0;
+    while (cnt < max) {
+      size_t ns, ni, mi, fn; uintptr_t mn, mx; bool run;
+      Cello_Verif_GC_Stat(gc, &ns, &ni, &mi, &mn, &mx, &fn, &run);
+      if (ni >= mi or not run) { break; }
+      mk(base + cnt, K_NODE, C_MANAGED, NULL, NULL); cnt++;
+    }
+    fprintf(out, "filled=%d", cnt);
+  }
+  else if (OP("many")) {                 /* many new base cnt cls | many del base cnt step : bulk (de)allocation of plain Nodes;
+                                         ** the registry is checked whenever its size changed and every 4096 operations */
+    bool isnew = strcmp(w[1], "new") is 0; int base = hnd(w[2]); int cnt = atoi(w[3]);
+    int cls = C_MANAGED; long step = 1;
+    if (isnew) { cls = w[4][0] is 'm' ? C_MANAGED : (w[4][1] is 'o' ? C_ROOT : C_RAW); } else { step = atol(w[4]); }
+    size_t last_ns = 0; { size_t ni, mi, fn; uintptr_t mn, mx; bool run; Cello_Verif_GC_Stat(gc, &last_ns, &ni, &mi, &mn, &mx, &fn, &run); }
+    for (int i = 0; i < cnt; i++) {
+      if (isnew) { mk(base + i, K_NODE, cls, NULL, NULL); }
+      else {
+        int h = base + (int)(((long)i * step) % cnt); var p = P(h);
+        led[h].explicit_del = true;
+        if (led[h].cls is C_MANAGED) { del(p); } else if (led[h].cls is C_ROOT) { del_root(p); } else { del_raw(p); }
+        if (led[h].dtor isnt 1) { err("bulk del: object not finalised exactly once id=%lld", h); }
+      }
+      size_t ns, ni, mi, fn; uintptr_t mn, mx; bool run;
+      Cello_Verif_GC_Stat(gc, &ns, &ni, &mi, &mn, &mx, &fn, &run);
+      if (ns isnt last_ns or i % 4096 is 4095 or i is cnt - 1) { registry_check(); fputs(" | ", out); last_ns = ns; }
+    }
+  }
+  else if (OP("copy")) {                 /* copy h src : the copy of an instrumented object gets its own identity in the ledger; copies of Ref and of the containers share the targets */
     int h = hnd(w[1]); int src = hnd(w[2]);
     bool running_now = true;
     { size_t ns, ni, mi, fn; uintptr_t mn, mx; Cello_Verif_GC_Stat(gc, &ns, &ni, &mi, &mn, &mx, &fn, &running_now); }
     var r = copy(P(src));
-    struct Node* nd = r; nd->id = h; nd->canary = CANARY ^ (uint64_t)h;
-    led[h].used = true; led[h].ptr = r; led[h].kind = led[src].kind; led[h].cls = C_MANAGED; led[h].dtor = 0; led[h].released = 0;
-    led[h].explicit_del = false; led[h].unregistered = not running_now; led[h].seq = ++alloc_seq;
-    if (h > led_hi) { led_hi = h; }
+    if (is_node(led[src].kind) and led[src].kind isnt K_NODEZ) { struct Node* nd = r; nd->id = h; nd->canary = CANARY ^ (uint64_t)h; }
+    ledger_add(h, r, led[src].kind, C_MANAGED);
+    led[h].unregistered = not running_now;
   }
   else if (OP("churn")) {                /* churn base n : n short-lived Nodes with ids base.. */
     int base = hnd(w[1]); int cnt = atoi(w[2]);
@@ -360,13 +477,13 @@ static void do_op(char** w, int n) {
   }
   else if (OP("chain")) {                /* chain h base n how : h -> base -> base+1 ... (how: 0 field, 1 via Ref objects, 2 via one-element Lists) */
     int h = hnd(w[1]); int base = hnd(w[2]); int cnt = atoi(w[3]); int how = atoi(w[4]);
-    var prev = P(h);
+    var prev = P(h); int pk = led[h].kind;
     for (int i = 0; i < cnt; i++) {
       var nd = mk(base + 2 * i, K_NODE, C_MANAGED, NULL, NULL);
-      if (how is 0) { ((struct Node*)prev)->out[0] = nd; }
-      else if (how is 1) { var r = mk(base + 2 * i + 1, K_REF, C_MANAGED, nd, NULL); ((struct Node*)prev)->out[0] = r; }
-      else { var l = mk(base + 2 * i + 1, K_LST, C_MANAGED, NULL, NULL); push(l, $R(nd)); ((struct Node*)prev)->out[0] = l; }
-      prev = nd;
+      if (how is 0) { *field_of(pk, prev, 0) = nd; }
+      else if (how is 1) { var r = mk(base + 2 * i + 1, K_REF, C_MANAGED, nd, NULL); *field_of(pk, prev, 0) = r; }
+      else { var l = mk(base + 2 * i + 1, K_LST, C_MANAGED, NULL, NULL); push(l, $R(nd)); *field_of(pk, prev, 0) = l; }
+      prev = nd; pk = K_NODE;
     }
   }
   else if (OP("stop")) { stop(gc); }
@@ -380,14 +497,15 @@ static void do_op(char** w, int n) {
     for (int i = 1; i < n and not bad; i++) {
       int h = hnd(w[i]);
       if (not led[h].used) { harness_bug("alive of unknown"); }
-      if (led[h].kind <= K_NODEA) {
+      if (is_node(led[h].kind)) {
         if (led[h].dtor isnt 0) { bad = "finalised"; badid = h; break; }
         struct Node* nd = led[h].ptr;
-        if (nd->canary isnt (CANARY ^ (uint64_t)h) or nd->id isnt h) { bad = "canary"; badid = h; break; }
+        if (led[h].kind isnt K_NODEZ and (nd->canary isnt (CANARY ^ (uint64_t)h) or nd->id isnt h)) { bad = "canary"; badid = h; break; }
       }
       if (led[h].cls isnt C_RAW and not led[h].unregistered and not mem(gc, led[h].ptr)) { bad = "not-registered"; badid = h; break; }
-      if (led[h].kind > K_BOX) { (void)len(led[h].ptr); }
-      else if (led[h].kind is K_REF or led[h].kind is K_BOX) { (void)deref(led[h].ptr); }
+      if (is_ptrobj(led[h].kind)) { (void)deref(led[h].ptr); }
+      else if (led[h].kind is K_THR) { (void)mem(led[h].ptr, $S("k0")); }
+      else if (not is_node(led[h].kind)) { (void)len(led[h].ptr); }
     }
     if (bad) { fprintf(out, "BAD id=%d %s", badid, bad); } else { fputs("alive", out); }
   }
@@ -449,7 +567,7 @@ static void __attribute__((destructor)) main_mode_report(void) {
   /* runs after the atexit handlers, i.e. after Cello_Exit tore the main collector down */
   long bad_m = 0, bad_r = 0, n_m = 0, first_bad = -1;
   for (int i = 0; i <= led_hi; i++) {
-    if (not led[i].used or led[i].kind > K_NODEA) { continue; }
+    if (not led[i].used or not is_node(led[i].kind)) { continue; }
     int want = 1;
     if (led[i].cls isnt C_MANAGED or led[i].unregistered) { want = led[i].explicit_del ? 1 : 0; }
     if (led[i].cls is C_MANAGED) { n_m++; }
@@ -492,6 +610,7 @@ int main(int argc, char** argv) {
     }
     /* run the case */
     memset(led, 0, sizeof(struct Led) * (size_t)(led_hi + 1)); led_hi = 0; nfin = 0; fin_reported = 0; errmsg[0] = 0;
+    case_gen++; retype_mode = 0;
     memset(cellused, 0, sizeof cellused);
     memset(bset, 0, sizeof bset); outstanding = 0;
     out = open_memstream(&outbuf, &outlen);
@@ -515,7 +634,7 @@ int main(int argc, char** argv) {
     free(outbuf); outbuf = NULL;
     long bad_m = 0, bad_r = 0, n_m = 0, first_bad = -1;
     for (int i = 0; i <= led_hi; i++) {
-      if (not led[i].used or led[i].kind > K_NODEA) { continue; }
+      if (not led[i].used or not is_node(led[i].kind)) { continue; }
       if (led[i].cls is C_MANAGED and not led[i].unregistered) { n_m++; if (led[i].dtor isnt 1) { bad_m++; if (first_bad < 0) { first_bad = i; } } }
       else if (led[i].cls is C_MANAGED) { int want = led[i].explicit_del ? 1 : 0; if (led[i].dtor isnt want) { bad_m++; if (first_bad < 0) { first_bad = i; } } }
       else { int want = led[i].explicit_del ? 1 : 0; if (led[i].dtor isnt want) { bad_r++; if (first_bad < 0) { first_bad = i; } } }
